@@ -8,7 +8,7 @@ Import ListNotations.
 Require Import TV.Base.EP TV.Base.EPSound TV.Base.Amp TV.Model.Lane TV.Spec.Born TV.gen.Gen_instructions TV.gen.Gen_stim_gates
   TV.Model.GateCheck TV.Model.InstrCheck TV.Model.KrausCheck TV.Proofs.GateProofs TV.Proofs.InstrProofs
   TV.Proofs.BitIdx TV.Proofs.CircuitProofs TV.Proofs.CircuitTheorem TV.Proofs.DenseBridge TV.Proofs.KrausSem TV.Proofs.KrausLocal
-  TV.Proofs.KrausTheorem TV.Proofs.KrausGates TV.Proofs.KrausFeedback TV.Proofs.KrausNoise2 TV.Proofs.KrausRot.
+  TV.Proofs.KrausTheorem TV.Proofs.KrausGates TV.Proofs.KrausFeedback TV.Proofs.KrausNoise2 TV.Proofs.KrausRot TV.Proofs.KrausChain.
 Set Default Timeout 200.
 
 (* ---- finite facts about the regenerated collapse fragments ---- *)
@@ -115,7 +115,8 @@ Section KCirc.
   | CN (name : string) (args : list Q) (q : nat)         (* x_error y_error z_error depolarize1 (one argument), pauli_channel_1 (three) *)
   | CF (name : string) (r q : nat)                       (* a Pauli on lane q controlled by record bit r: "CX rec q" ... "YCZ q rec" *)
   | CN2 (args : list Q) (qi qj : nat)                    (* DEPOLARIZE2 (one argument) / PAULI_CHANNEL_2 (fifteen) on lanes qi, qj *)
-  | CU (name : string) (angles : list expo) (q : nat).   (* T T_DAG (no angle), R_Z R_X R_Y (one), U3 (theta, phi, lambda): any angles *)
+  | CU (name : string) (angles : list expo) (q : nat)    (* T T_DAG (no angle), R_Z R_X R_Y (one), U3 (theta, phi, lambda): any angles *)
+  | CE (first : bool) (tg : list (pauli * nat)) (p : Q) (rel : Z).   (* E(p) (first) / ELSE_CORRELATED_ERROR(p) on a Pauli product; rel: see KrausChain.v *)
   Definition cinstr_ops (i : cinstr) : option (list (op nat)) :=
     match i with
     | CG x => gapp_ops x
@@ -126,6 +127,7 @@ Section KCirc.
     | CF name r q => match assoc name fb_fns with Some (_, g) => Some (g r q) | None => None end
     | CN2 args qi qj => cn2_ops args qi qj
     | CU name angles q => cu_ops name angles q
+    | CE first tg p rel => Some (ce_ops first tg p rel)
     end.
   (* a feedback instruction may only refer to a record bit that exists at that point *)
   Definition cinstr_ok (sk : kst) (i : cinstr) : bool := match i with CF _ r _ => Nat.ltb r (knrec R sk) | _ => true end.
@@ -161,6 +163,7 @@ Section KCirc.
         aapp1 (m2f_of (spec_noise1_m "pauli_channel_1" (window b (knrec R sk) (knsil R sk) (knerr R sk + 2)))) qj
           (aapp1 (m2f_of (spec_noise1_m "pauli_channel_1" (window b (knrec R sk) (knsil R sk) (knerr R sk)))) qi psi)
     | CU name angles q => spec_cu R rO rI radd rmul ropp E half ta tb tc name angles q psi
+    | CE first tg p rel => spec_ce R rO rI radd rmul ropp E half ta tb tc b sk tg rel psi
     end.
   Fixpoint cspec (b : bits) (sk : kst) (c : list cinstr) (psi : state) : state :=
     match c with
@@ -178,7 +181,7 @@ Section KCirc.
   Qed.
   Lemma spec_instr_scale b sk i c psi : spec_instr b sk i (scale c psi) = scale c (spec_instr b sk i psi).
   Proof.
-    destruct i as [x | name inv q | name q | name p inv q | name args q | name r q | args qi qj | name angles q]; cbn [spec_instr].
+    destruct i as [x | name inv q | name q | name p inv q | name args q | name r q | args qi qj | name angles q | first tg p rel]; cbn [spec_instr].
     - apply gapp_doc_scale.
     - destruct (assoc name meas_fns) as [[[basis is_reset] g]|]; [apply (scale_app1 R rO rI radd rmul rsub ropp Rth) | reflexivity].
     - destruct (assoc name reset_fns) as [[basis g]|]; [apply (scale_app1 R rO rI radd rmul rsub ropp Rth) | reflexivity].
@@ -187,6 +190,7 @@ Section KCirc.
     - destruct (assoc name fb_fns) as [[P g]|]; [|reflexivity]. destruct (bit (brec b) r); [apply (scale_app1 R rO rI radd rmul rsub ropp Rth) | reflexivity].
     - rewrite !(scale_app1 R rO rI radd rmul rsub ropp Rth). reflexivity.
     - apply (spec_cu_scale R rO rI radd rmul rsub ropp Rth E half ta tb tc).
+    - apply (spec_ce_scale R rO rI radd rmul rsub ropp Rth E half ta tb tc).
   Qed.
   Lemma cspec_scale b c0 : forall sk c psi, cspec b sk c0 (scale c psi) = scale c (cspec b sk c0 psi).
   Proof.
@@ -218,7 +222,7 @@ Section KCirc.
   Theorem instr_sound i o : cinstr_ops i = Some o -> forall sk : kst, kinv R sk -> cinstr_ok sk i = true ->
     exists C, sq2 C /\ forall b t, skel_eq t sk -> exists e : Qc, kfinal (krun b o t) = scale (E e * C) (spec_instr b sk i (kfinal t)).
   Proof.
-    destruct i as [x | name inv q | name q | name p inv q | name args q | name r q | args qi qj | name angles q]; cbn [cinstr_ops spec_instr cinstr_ok]; intros Ho sk Hkinv Hok.
+    destruct i as [x | name inv q | name q | name p inv q | name args q | name r q | args qi qj | name angles q | first tg p rel]; cbn [cinstr_ops spec_instr cinstr_ok]; intros Ho sk Hkinv Hok.
     - (* gate *)
       destruct (gate_in_context R rO rI radd rmul rsub ropp Rth E E_add E_0 E_1 half half_2 ta tb tc x o Ho) as (e & He).
       exists (uM sk o). split; [apply sq2_uM|]. intros b t Hs. exists (xv e). rewrite (He b t).
@@ -293,6 +297,10 @@ Section KCirc.
       destruct (cu_in_context R rO rI radd rmul rsub ropp Rth E E_add E_0 E_1 half half_2 ta tb tc name angles q o Ho) as (e & He).
       exists (uM sk o). split; [apply sq2_uM|]. intros b t Hs. exists e. rewrite (He b t).
       rewrite (uM_skel R rO rI radd rmul ropp E half ta tb tc o t sk Hs). reflexivity.
+    - (* one element of a correlated-error chain *)
+      injection Ho as <-.
+      destruct (ce_sound R rO rI radd rmul rsub ropp Rth E E_0 half ta tb tc first tg p rel sk) as (C & HC & H).
+      exists C. split; [exact HC|]. intros b t Hs. exists 0%Qc. apply (H b t Hs).
   Qed.
 
   (* ---- THE composition theorem on amplitude functions ---- *)
@@ -350,10 +358,11 @@ Section KCirc.
     | CM _ _ q | CR _ q | CMp _ _ _ q | CN _ _ q | CF _ _ q => Nat.ltb q n
     | CN2 _ qi qj => Nat.ltb qi n && Nat.ltb qj n
     | CU _ _ q => Nat.ltb q n
+    | CE _ tg _ _ => forallb (fun pq : pauli * nat => Nat.ltb (snd pq) n) tg
     end.
   Lemma cinstr_wf n i o : cinstr_ops i = Some o -> cinstr_lanes_ok n i = true -> forallb (wf_op n) o = true.
   Proof.
-    destruct i as [[name a | name a c] | name inv q | name q | name p inv q | name args q | name r q | args qi qj | name angles q]; cbn [cinstr_ops cinstr_lanes_ok gapp_ops]; intros Ho Hl.
+    destruct i as [[name a | name a c] | name inv q | name q | name p inv q | name args q | name r q | args qi qj | name angles q | first tg p rel]; cbn [cinstr_ops cinstr_lanes_ok gapp_ops]; intros Ho Hl.
     - apply Nat.ltb_lt in Hl.
       destruct (assoc name gate_table) as [[fn [|[|ar]]]|] eqn:Ha; try discriminate.
       destruct (doc_of name) as [[[|[|n']] D]|] eqn:Hd; try discriminate.
@@ -409,6 +418,7 @@ Section KCirc.
       unfold cn2_ops in Ho. repeat (destruct args as [|? args]; try discriminate Ho); injection Ho as <-;
         [unfold g_depolarize2|]; unfold g_pauli_channel_2; cbn [app forallb wf_op]; rewrite Li, Lj; reflexivity.
     - apply (cu_wf n name angles q o Ho Hl).
+    - injection Ho as <-. unfold ce_ops. rewrite !forallb_app, (link_ops_wf n tg rel Hl). destruct first; reflexivity.
   Qed.
   Lemma ccircuit_wf n c : forall ops, ccircuit_ops c = Some ops -> forallb (cinstr_lanes_ok n) c = true -> forallb (wf_op n) ops = true.
   Proof.
